@@ -2,6 +2,7 @@ package main
 
 import (
 	"fmt"
+	"os"
 	"sort"
 	"go/constant"
 	"go/token"
@@ -301,6 +302,9 @@ func (fr *FuncRun) runRegion(f *Frame, order []*ssa.BasicBlock, within map[*ssa.
 				}
 				alive = false
 			default:
+				if os.Getenv("GOVC_DEBUG_WRITES") != "" {
+					fr.curInstr = fmt.Sprintf("%s: %s", f.fn.Name(), ins.String())
+				}
 				fr.execInstr(f, cur, ins)
 			}
 		}
